@@ -131,6 +131,17 @@ def cases(rng, tier):
             b = encode(2, [(5, -7)], ents)
             ts = ",".join(fhex(t) for t in (0.0, 50.0, 200.0, 3.0e9, 4294967040.0, 5.0e9, float("inf")))
             yield ("rth %s 0,1 %s" % (hexs(b), ts), "cumulative-at-limit")
+    # a single number beyond 32 bits (fifth byte 10, 20, 30, 40, 60, 7f; six bytes) in each field that is a varuint:
+    # overflow whatever bits of it would fit, at every time that makes the scan reach it
+    for field in ("dt", "dur", "pre", "post", "neckd", "point"):
+        for v in (2 ** 32, 2 ** 33, 2 ** 33 + 5, 3 * 2 ** 32, 2 ** 34, 3 * 2 ** 33, 2 ** 35 - 1, 2 ** 35, 2 ** 40 + 7):
+            e1 = dict(dt=10, code=1, point=0, alt=10, neck=0, neckd=0, dur=5, pre=None, post=None, a=1, pad=0, cum=10)
+            e2 = dict(dt=20, code=3, point=1, alt=10, neck=7, neckd=2, dur=30, pre=4, post=3, a=3, pad=0, cum=30)
+            e3 = dict(dt=5, code=2, point=0, alt=10, neck=0, neckd=0, dur=8, pre=None, post=None, a=2, pad=0, cum=35)
+            e2[field] = v
+            b = encode(3, [(5, -7), (100, 200)], [e1, e2, e3])
+            ts = ",".join(fhex(t) for t in (0.0, 10.0, 10.5, 30.0, 31.0, 40.0, 1e9, float("inf")))
+            yield ("rth %s 0,1,2 %s" % (hexs(b), ts), "varuint-beyond-32-bits")
     for i in range(n):
         big = (i % 4 == 0)
         scale, pts, ents = rand_plan(rng, big)
